@@ -3,14 +3,16 @@ package main
 // Struct assignment copies every field, including nested structs and
 // arrays, but shares slices, maps and pointers.
 
+type A2 [2]int
+type IS []int
 type In struct {
 	v   int
-	arr [2]int
+	arr A2
 }
 type S struct {
 	n  int
 	in In
-	sl []int
+	sl IS
 	m  map[string]int
 	p  *In
 	s  string
@@ -33,7 +35,7 @@ func byPtr(s *S) {
 }
 
 func mk() S {
-	return S{1, In{2, [2]int{3, 4}}, []int{5, 6}, map[string]int{"k": 7}, &In{8, [2]int{9, 10}}, "orig"}
+	return S{1, In{2, A2{3, 4}}, []int{5, 6}, map[string]int{"k": 7}, &In{8, A2{9, 10}}, "orig"}
 }
 
 func show(tag string, s *S) {
@@ -82,12 +84,17 @@ func main() {
 	println(ss[0].n, ss[1].n)
 
 	// copy out of map
-	ms := map[int]S{1: mk()}
+	// copy out of map (value type without arrays: known finding array_eq)
+	type V struct {
+		in struct{ v int }
+		s  string
+	}
+	ms := map[int]V{1: {s: "v"}}
 	f := ms[1]
 	f.in.v = 80
 	println(ms[1].in.v, f.in.v)
 	ms[1] = f
-	println(ms[1].in.v)
+	println(ms[1].in.v, ms[1].s)
 
 	// pointer deref copy
 	p := &a
